@@ -115,6 +115,10 @@ class Builtins:
         self.OBJECT.dict["__setattr__"] = Builtin("object.__setattr__", self._object_setattr, cls=self.OBJECT)
         self.OBJECT.dict["__getattribute__"] = Builtin("object.__getattribute__", lambda I, o, n: I.getattr(o, n), cls=self.OBJECT)
         self.OBJECT.dict["__delattr__"] = Builtin("object.__delattr__", lambda I, o, n: I.delattr(o, n), cls=self.OBJECT)
+        # identity hash / equality of object: reachable as `Cls.__hash__` (e.g. `__hash__ = Base.__hash__` next to a new __eq__)
+        self.OBJECT.dict["__hash__"] = Builtin("object.__hash__", lambda I, o: Digest(o), cls=self.OBJECT)
+        self.OBJECT.dict["__eq__"] = Builtin("object.__eq__", lambda I, a, b: True if a is b else self.NOTIMPL, cls=self.OBJECT)
+        self.OBJECT.dict["__ne__"] = Builtin("object.__ne__", lambda I, a, b: False if a is b else self.NOTIMPL, cls=self.OBJECT)
         self.types["object"] = self.OBJECT
         self.types["type"] = self.TYPE
 
@@ -267,7 +271,7 @@ class Builtins:
         out = []
         for x in items:
             self.check_hashable(x)
-            if not any(y is x or I.eq(y, x) for y in out):
+            if not any(y is x or I.heq(y, x) for y in out):
                 out.append(x)
         return out
 
@@ -355,7 +359,7 @@ class Builtins:
     def dict_find(self, I, d, k):
         self.check_hashable(k)
         for i, (kk, _) in enumerate(d.pairs):
-            if kk is k or I.eq(kk, k):
+            if kk is k or I.heq(kk, k):
                 return i
         return -1
 
@@ -367,8 +371,8 @@ class Builtins:
             d.pairs.append([k, v])
 
     def obj_dict(self, o):
-        # live view is not modelled: a detached copy, writes through it are not supported
-        return ProxyV(DictV([(k, v) for k, v in o.fields.items()]))
+        from .ae import live_dict
+        return live_dict(o)
 
     # ------------------------------------------------------------------ str / repr
     def to_str(self, I, x):
@@ -484,16 +488,16 @@ class Builtins:
             if T is ast.BitOr:
                 if inplace and not a.frozen:
                     for x in b.items:
-                        if not any(y is x or I.eq(y, x) for y in a.items):
+                        if not any(y is x or I.heq(y, x) for y in a.items):
                             a.items.append(x)
                     return a
                 return SetV(self._uniq(I, a.items + b.items), a.frozen)
             if T is ast.BitAnd:
-                r = [x for x in a.items if any(y is x or I.eq(y, x) for y in b.items)]
+                r = [x for x in a.items if any(y is x or I.heq(y, x) for y in b.items)]
             elif T is ast.Sub:
-                r = [x for x in a.items if not any(y is x or I.eq(y, x) for y in b.items)]
+                r = [x for x in a.items if not any(y is x or I.heq(y, x) for y in b.items)]
             elif T is ast.BitXor:
-                r = [x for x in a.items if not any(y is x or I.eq(y, x) for y in b.items)] + [x for x in b.items if not any(y is x or I.eq(y, x) for y in a.items)]
+                r = [x for x in a.items if not any(y is x or I.heq(y, x) for y in b.items)] + [x for x in b.items if not any(y is x or I.heq(y, x) for y in a.items)]
             else:
                 raise Raised(self.mkexc("TypeError", "unsupported set operator"))
             if inplace and not a.frozen:
@@ -543,8 +547,8 @@ class Builtins:
         if isinstance(a, LenV) or isinstance(b, LenV):
             return LenV.compare(T, a, b)
         if isinstance(a, SetV) and isinstance(b, SetV):
-            sub = all(any(y is x or I.eq(y, x) for y in b.items) for x in a.items)
-            sup = all(any(y is x or I.eq(y, x) for y in a.items) for x in b.items)
+            sub = all(any(y is x or I.heq(y, x) for y in b.items) for x in a.items)
+            sup = all(any(y is x or I.heq(y, x) for y in a.items) for x in b.items)
             return {ast.Lt: sub and not sup, ast.LtE: sub, ast.Gt: sup and not sub, ast.GtE: sup}[T]
         if isinstance(a, Obj):
             nm = {ast.Lt: "__lt__", ast.LtE: "__le__", ast.Gt: "__gt__", ast.GtE: "__ge__"}[T]
